@@ -158,6 +158,17 @@ CLAIMED = {
              "defaulted solution (pFBA) and float fva are recomputed deterministically by the harness.",
         technique="Lean 4 proof over an executable table model + differential correspondence",
         design="DESIGN.md section 5, C20"),
+    "C11": dict(
+        engine="io",
+        text="Lean 4 over the model of _reaction_to_dict/_reaction_from_dict (required and optional keys, infinite bounds as text, both bounds set "
+             "together): fromDict (toDict r) = r for every reaction with ordered bounds, saving is idempotent, and the repaired defect is exhibited "
+             "(old_loader_rejected_high_lower_bound). The model's dictionaries are compared with cobrapy's on generated reactions (lean --run); "
+             "generated rich models go through JSON (string, file, handle), YAML (string, file), dict, pickle, sort on/off, default and non-default "
+             "Configuration().bounds, with full dumps, raw GLPK problem and optimum compared after one and two round trips.",
+        note="Trusted: Lean kernel, standard axioms; json / ruamel.yaml / pickle and float<->text conversion are external (exercised on every generated "
+             "value); metabolite, gene and model dictionaries are covered by the round-trip comparison only; groups are outside the dict formats.",
+        technique="Lean 4 proof (round trip of the dictionary form) + differential correspondence + round-trip comparison on the real code",
+        design="DESIGN.md section 5, C11"),
 }
 
 PENDING_REASON = "check under construction in this session (see DESIGN.md section 9 build order); not claimed until its Lean model, theorems and correspondence exist"
@@ -200,6 +211,8 @@ def main():
              "kind_free_text": "Lean LP model + proved certificate checker (Model/LP.lean, Lemmas/LP.lean), untrusted exact simplex, constructive FBA instance generator"},
             {"name": "summary", "path": "harness/c20.py", "serves_properties": ["C20"],
              "kind_free_text": "Lean table model SummaryM + driver, compared with ModelSummary / MetaboliteSummary frames"},
+            {"name": "io", "path": "harness/richgen.py", "serves_properties": ["C11"],
+             "kind_free_text": "rich model generator / dump, Lean DictIO model + driver, round trips through every format"},
             {"name": "gpr", "path": "harness/c08.py", "serves_properties": ["C08"],
              "kind_free_text": "Lean model GPRM (rule trees, parser, remover) + generated escape tables + correspondence against cobra.core.gene.GPR"},
         ],
